@@ -38,7 +38,7 @@ func TestVerifBounded_C08_InheritedTokensAcrossHeartbeats(t *testing.T) {
 			t.Fatal(err)
 		}
 		_ = services.StartAndAwaitRunning(ctx, lc)
-		verifAwaitState(store, "me", ACTIVE, 3*time.Second)
+		verifAwaitState(store, "me", ACTIVE, 15*time.Second)
 		time.Sleep(50 * time.Millisecond)
 		w.mu.Lock()
 		for n, d := range w.snaps {
